@@ -194,10 +194,11 @@ static const char* C20_RULES =
   "rule x_float { condition: ext_f > 2.0 and ext_f < 3.0 }\nrule x_str { condition: ext_s contains \"needle\" and ext_s matches /ne+dle$/ }\n"
   "rule x_at { strings: $a = \"EXTMARK\" condition: $a at ext_off }\nrule x_in { strings: $a = \"EXTMARK\" condition: $a in (ext_off..ext_off + 2) }\n"
   "rule x_of { strings: $a = \"of_one\" $b = \"of_three\" $c = \"EXTMARK\" condition: ext_n of them }\n"
-  "rule x_loop { condition: for any i in (0..ext_n) : ( i == 2 ) }\nrule x_cmp_ext { condition: ext_i > ext_off }\n";
-static const char* C20_NAMES[] = {"x_int", "x_int_arith", "x_bool", "x_float", "x_str", "x_at", "x_in", "x_of", "x_loop", "x_cmp_ext"};
-static const char* IDS[] = {"ext_i", "ext_b", "ext_f", "ext_s", "ext_off", "ext_n"};
-static const char ID_TYPES[] = {'i', 'b', 'f', 's', 'i', 'i'};
+  "rule x_loop { condition: for any i in (0..ext_n) : ( i == 2 ) }\nrule x_cmp_ext { condition: ext_i > ext_off }\nrule x_str2 { condition: ext_t contains \"needle\" }\nrule x_streq { condition: ext_s == ext_t }\n";
+static const char* C20_NAMES[] = {"x_int", "x_int_arith", "x_bool", "x_float", "x_str", "x_at", "x_in", "x_of", "x_loop", "x_cmp_ext", "x_str2", "x_streq"};
+static const char* IDS[] = {"ext_i", "ext_b", "ext_f", "ext_s", "ext_off", "ext_n", "ext_t"};
+static const char ID_TYPES[] = {'i', 'b', 'f', 's', 'i', 'i', 's'};
+static const int NIDS = 7;
 
 static bool model_str_ok(const std::string& s) {
   if (s.find("needle") == std::string::npos) return false;
@@ -216,6 +217,8 @@ static std::set<std::string> model_verdicts(const Env& env) {
   int64_t off = I("ext_off"); if (off == 5) m.insert("x_at"); if (5 >= off && 5 <= off + 2) m.insert("x_in");
   int64_t n = I("ext_n"); if (n >= 1 && n <= 2) m.insert("x_of"); if (n >= 2) m.insert("x_loop");
   if (I("ext_i") > off) m.insert("x_cmp_ext");
+  if (env.at("ext_t").s.find("needle") != std::string::npos) m.insert("x_str2");
+  if (env.at("ext_s").s == env.at("ext_t").s) m.insert("x_streq");
   return m;
 }
 
@@ -227,9 +230,9 @@ static Val gen_val(Rng& rng, char type, bool allow_null) {
   Val v; v.type = type;
   static const int64_t ints[] = {0, 1, 2, 3, 4, 5, 12, 42, 43, 7};
   static const double fl[] = {0.5, 2.5, 2.75, 9.5};
-  static const char* ss[] = {"hay needle", "plain", "", "xx neeedle", "needle not at end."};
+  static const char* ss[] = {"hay needle", "plain", "", "xx neeedle", "needle not at end.", "ext_i", "x_int", "hay", "no"};
   if (type == 'i') v.i = ints[rng.below(10)]; else if (type == 'b') v.i = rng.below(2); else if (type == 'f') v.f = fl[rng.below(4)];
-  else { if (allow_null && rng.chance(1, 8)) v.null_s = true; else v.s = ss[rng.below(5)]; }
+  else { if (allow_null && rng.chance(1, 8)) v.null_s = true; else v.s = ss[rng.below(9)]; }
   return v;
 }
 static Val gen_val_for(Rng& rng, int id, char type, bool allow_null) {
@@ -240,13 +243,13 @@ static Val gen_val_for(Rng& rng, int id, char type, bool allow_null) {
 static H20 gen_h20(Rng& rng) {
   H20 h;
   int npre = (int) rng.range(2, 9);
-  for (int k = 0; k < npre; k++) { Op20 o; o.kind = 0; o.who = 0; o.id = (int) rng.below(6); o.type = ID_TYPES[o.id]; o.v = gen_val_for(rng, o.id, o.type, true); h.pre.push_back(o); }
+  for (int k = 0; k < npre; k++) { Op20 o; o.kind = 0; o.who = 0; o.id = (int) rng.below(NIDS); o.type = ID_TYPES[o.id]; o.v = gen_val_for(rng, o.id, o.type, true); h.pre.push_back(o); }
   int n = (int) rng.range(4, 24); int scanners = 0;
   for (int k = 0; k < n; k++) {
     Op20 o; int r = (int) rng.below(20); o.who = 0; o.id = 0; o.type = 'i';
-    if (r < 5) { o.kind = 1; bool bad_id = rng.chance(1, 8); o.id = bad_id ? -1 : (int) rng.below(6); bool wrong = rng.chance(1, 6); o.type = (o.id >= 0 && !wrong) ? ID_TYPES[o.id] : "ibfs"[rng.below(4)]; o.v = gen_val_for(rng, o.id, o.type, true); }
+    if (r < 5) { o.kind = 1; bool bad_id = rng.chance(1, 8); o.id = bad_id ? -1 : (int) rng.below(NIDS); bool wrong = rng.chance(1, 6); o.type = (o.id >= 0 && !wrong) ? ID_TYPES[o.id] : "ibfs"[rng.below(4)]; o.v = gen_val_for(rng, o.id, o.type, true); }
     else if (r < 8) { o.kind = 2; if (scanners >= 4) { o.kind = 5; } else scanners++; }
-    else if (r < 13) { if (!scanners) { o.kind = 2; scanners++; } else { o.kind = 3; o.who = (int) rng.below(scanners); bool bad_id = rng.chance(1, 8); o.id = bad_id ? -1 : (int) rng.below(6); bool wrong = rng.chance(1, 6); o.type = (o.id >= 0 && !wrong) ? ID_TYPES[o.id] : "ibfs"[rng.below(4)]; o.v = gen_val_for(rng, o.id, o.type, false); } }
+    else if (r < 13) { if (!scanners) { o.kind = 2; scanners++; } else { o.kind = 3; o.who = (int) rng.below(scanners); bool bad_id = rng.chance(1, 8); o.id = bad_id ? -1 : (int) rng.below(NIDS); bool wrong = rng.chance(1, 6); o.type = (o.id >= 0 && !wrong) ? ID_TYPES[o.id] : "ibfs"[rng.below(4)]; o.v = gen_val_for(rng, o.id, o.type, false); } }
     else if (r < 17) { if (!scanners) { o.kind = 5; } else { o.kind = 4; o.who = (int) rng.below(scanners); } }
     else if (r < 18) o.kind = 5;
     else if (r < 19) o.kind = 6;
@@ -291,7 +294,7 @@ static Diff20 run_h20(const H20& h, Stats* st) {
     if (rc == ERROR_SUCCESS && expect == ERROR_SUCCESS) { Val v = o.v; v.type = o.type; C[id] = v; }
     opi++;
   }
-  for (int k = 0; k < 6; k++) if (!C.count(IDS[k])) { Val v; v.type = ID_TYPES[k]; v.i = k == 5 ? 2 : k == 4 ? 5 : 42; v.f = 2.5; v.s = "hay needle"; if (v.type == 'b') v.i = 1; api_define(0, comp, IDS[k], v.type, v); C[IDS[k]] = v; }
+  for (int k = 0; k < NIDS; k++) if (!C.count(IDS[k])) { Val v; v.type = ID_TYPES[k]; v.i = k == 5 ? 2 : k == 4 ? 5 : 42; v.f = 2.5; v.s = "hay needle"; if (v.type == 'b') v.i = 1; api_define(0, comp, IDS[k], v.type, v); C[IDS[k]] = v; }
   if (d.op >= 0) { yr_compiler_destroy(comp); return d; }
   if (yr_compiler_add_string(comp, C20_RULES, NULL) != 0) { yr_compiler_destroy(comp); fail(opi, "harness", "probe rules do not compile", ""); return d; }
   YR_RULES* rules = NULL; yr_compiler_get_rules(comp, &rules); yr_compiler_destroy(comp);
